@@ -7,7 +7,8 @@ RULE = ("API programs (G4): trees of VCALENDAR/VEVENT/VTODO/VJOURNAL/VFREEBUSY/V
         "add_component(); values of every kind the registry (R10) allows for a name: text incl. the escape alphabet, int, float pairs (GEO), date, "
         "floating/UTC/zoned date-time (12 zones), duration, period (explicit and by duration), recurrence rules, categories, date lists (dates, "
         "date-times, periods), FREEBUSY period lists, uri, cal-address; parameters incl. quoted and list values; 1-3 occurrences of repeatable names; "
-        "plus the exhaustive RFC 5545 name table (one RFC-style value per property name). Oracles: the tree parsed back from to_ical() must equal what "
+        "plus the exhaustive RFC 5545 name table (one RFC-style value per property name) and values whose tzinfo is a fixed whole-hour offset "
+        "(datetime.timezone, dateutil tzoffset) or an alias of UTC (Etc/UTC, Zulu, GMT, timezone.utc, tzutc) in 7 shapes: read back they must be the same instant, offset and wall time. Oracles: the tree parsed back from to_ical() must equal what "
         "an independent emitter + reference reader say the program denotes (R8: nesting, names, multi-value order, parameters, decoded values with zone "
         "key and utcoffset); every emitted line is read with R2 and its value type recognised with R4: a non-default type must carry the matching VALUE "
         "parameter, a zoned value its TZID, a UTC value a Z and no TZID; decoded(name) must not raise; both providers; non-trivial = program with >= 6 "
@@ -47,7 +48,15 @@ def run(ctx):
             if ctx.mine(i):
                 ctx.check(("single", prov, comp, name, v), "rfc-name-table", enum=True)
             i += 1
+    for prov in ("zoneinfo", "pytz"):
+        for spec in DIRECT_TZ:
+            for shape in ("dtstart", "setter", "due", "rdate", "exdate", "period", "startend"):
+                for wall in ((2024, 5, 6, 7, 8, 9), (1975, 1, 2, 23, 4, 5)):
+                    if ctx.mine(i):
+                        ctx.check(("direct", prov, spec, wall, shape), "nameless-tzinfo", enum=True)
+                    i += 1
     ctx.exhaustive["RFC 5545 property-name table x providers"] = True
+    ctx.exhaustive["fixed whole-hour offsets and UTC aliases x shapes x providers"] = True
     rng = ctx.rng
     n = 0
     while ctx.time_left():
@@ -119,10 +128,78 @@ def check_lines(ctx, data, prov):
     return True
 
 
+DIRECT_TZ = (["fixed:%d" % (h * 3600) for h in range(-12, 15)] + ["dufixed:%d" % (h * 3600) for h in range(-12, 15)] +
+             ["stdutc", "duutc", "zi:Etc/UTC", "zi:Zulu", "zi:UTC", "pytz:Etc/UTC", "pytz:Zulu", "pytz:UTC", "zi:Etc/GMT+5", "zi:Etc/GMT-14", "pytz:Etc/GMT+12", "zi:GMT", "pytz:GMT"])
+
+
+def direct_tz(spec):
+    from datetime import timedelta, timezone
+    import dateutil.tz
+    from .. import vals
+    if spec.startswith("fixed:"):
+        return timezone(timedelta(seconds=int(spec[6:])))
+    if spec.startswith("dufixed:"):
+        return dateutil.tz.tzoffset(None, int(spec[8:]))
+    if spec == "stdutc":
+        return timezone.utc
+    if spec == "duutc":
+        return dateutil.tz.tzutc()
+    return vals.tzinfo_for(spec)
+
+
+def check_direct(ctx, case):
+    """tzinfo objects that are not zones of the tz database under their usual key: fixed whole-hour offsets (datetime.timezone,
+    dateutil tzoffset) and the aliases of UTC.  Whatever id the library writes, the value read back must be aware and be the
+    same instant with the same offset and wall time (S27)."""
+    import icalendar
+    from datetime import datetime, timedelta
+    from .. import vals
+    _, prov, spec, wall, shape = case
+    vals.use_provider(prov)
+    ctx.nontrivial(True)
+    tz = direct_tz(spec)
+    dt = vals.attach(datetime(*wall), tz)
+    comp = icalendar.Todo() if shape == "due" else icalendar.Event()
+    try:
+        if shape == "dtstart":
+            comp.add("dtstart", dt)
+        elif shape == "setter":
+            comp.start = dt
+        elif shape == "due":
+            comp.add("due", dt)
+        elif shape == "rdate":
+            comp.add("rdate", [dt, dt + timedelta(days=1)])
+        elif shape == "exdate":
+            comp.add("exdate", dt)
+        elif shape == "period":
+            comp.add("rdate", [(dt, dt + timedelta(hours=2))])
+        else:
+            comp.add("dtstart", dt)
+            comp.add("dtend", dt + timedelta(hours=1))
+        data = comp.to_ical()
+        back = type(comp).from_ical(data)
+    except Exception as e:
+        ctx.fail("direct-raises", observed=(spec, shape, f"{type(e).__name__}: {e}"[:200]), expected="a round trip")
+        return
+    name = {"dtstart": "DTSTART", "setter": "DTSTART", "due": "DUE", "rdate": "RDATE", "exdate": "EXDATE", "period": "RDATE", "startend": "DTEND"}[shape]
+    v = back[name]
+    got = v.dts[0].dt if hasattr(v, "dts") else v.dt
+    if isinstance(got, tuple):
+        got = got[0]
+    want = dt + timedelta(hours=1) if shape == "startend" else dt
+    line = [l for l in data.split(b"\r\n") if l.upper().startswith(name.encode())][:1]
+    if not isinstance(got, datetime) or got.tzinfo is None or got != want or got.utcoffset() != want.utcoffset() or got.replace(tzinfo=None) != want.replace(tzinfo=None):
+        ctx.fail("direct-value-differs", observed=(spec, shape, line, str(got)), expected=str(want))
+        return
+    ctx.count("direct-values-equal")
+
+
 def check_case(ctx, case):
     import icalendar
     from .. import vals
     kind, prov = case[0], case[1]
+    if kind == "direct":
+        return check_direct(ctx, case)
     vals.use_provider(prov)
     if kind == "single":
         _, _, comp, name, v = case
